@@ -25,6 +25,9 @@
 #include <sanitizer/lsan_interface.h>
 #endif
 
+#ifdef VRF_COVERAGE
+extern "C" void __gcov_dump(void);
+#endif
 namespace vrf {
 inline int g_heap_fill = 0xA5;  // byte that fresh heap blocks are filled with (non-ASan builds); init(): odd process indices use 0x00
 
@@ -277,6 +280,9 @@ inline void check_shadow()
             }
     }
     fflush(stderr);
+#ifdef VRF_COVERAGE
+    __gcov_dump();  // tools/coverage.py builds: _exit skips the atexit handlers that would write the counters
+#endif
     _exit(rc);
 }
 
@@ -921,6 +927,30 @@ inline void still_holds(const Cell& v, uint32_t id, const char* op)
     if (v.n != 1 || v.ids[0] != id)
         raise_violation("oracle:library_moved_from_an_lvalue_argument", std::string("{\"op\":\"") + op + "\",\"n\":" + std::to_string(v.n) + "}");
 }
+// Storage for a library object that is deliberately dirty before the constructor runs (a member the constructor forgets
+// to initialise keeps the garbage): filled with 0xA5, 0xFF or 0x00 depending on `salt`.
+template<class T>
+struct Hostile {
+    alignas(T) unsigned char buf[sizeof(T)];
+    T* p = nullptr;
+    explicit Hostile(uint64_t salt)
+    {
+        static const int fills[] = {0xA5, 0xFF, 0x00};
+        std::memset(buf, fills[salt % 3], sizeof buf);
+    }
+    template<class... A>
+    T& emplace(A&&... a)
+    {
+        p = ::new (static_cast<void*>(buf)) T(std::forward<A>(a)...);
+        return *p;
+    }
+    ~Hostile()
+    {
+        if (p) p->~T();
+    }
+    Hostile(const Hostile&) = delete;
+    Hostile& operator=(const Hostile&) = delete;
+};
 // RAII access window opened by harness code while it uses a handle / runs inside a functor
 struct Win {
     const Cell& c;
